@@ -70,7 +70,7 @@ Proof.
   cbn [option_bind fst snd] in H. apply Some_inj in H.
   assert (Hs : s' = set_flag s1 (a_flag e)) by congruence. subst s'. clear H.
   unfold tbl_add in E. rewrite Hk in E.
-  destruct (add_m md U32 (cast U32 (a_claimed e)) (t_len s)); [|discriminate]. cbn [option_bind] in E.
+  destruct (add_c U32 (cast U32 (a_claimed e)) (t_len s)); [|discriminate]. cbn [option_bind] in E.
   destruct (add_c U16 (t_hoff s) (cast U16 (a_claimed e))) as [nh|] eqn:Eh; [|discriminate]. cbn [option_bind] in E.
   apply Some_inj in E. assert (Hs1 : s1 = fst (s1, h)) by reflexivity. rewrite <- E in Hs1. cbn [fst] in Hs1. subst s1.
   cbn [set_flag t_kind t_hoff]. split; [reflexivity|].
@@ -180,7 +180,7 @@ Proof.
   intros Hk He Hbig. unfold add_step. rewrite He. cbn [option_bind].
   destruct (viot_node_sizes s o e He) as [Hsz Hcl].
   unfold tbl_add. rewrite Hk.
-  destruct (add_m md U32 (cast U32 (a_claimed e)) (t_len s)); [|reflexivity]. cbn [option_bind].
+  destruct (add_c U32 (cast U32 (a_claimed e)) (t_len s)); [|reflexivity]. cbn [option_bind].
   unfold add_c, cast, U16. rewrite (N.mod_small (a_claimed e)).
   - rewrite Hcl. destruct (N.ltb_spec (t_hoff s + N.of_nat (length (a_bytes e))) (2 ^ 16)); [lia|reflexivity].
   - rewrite Hcl. change (2 ^ 16) with 65536. destruct Hsz as [Hz|Hz]; rewrite Hz; lia.
